@@ -23,6 +23,7 @@ type Result = std::result::Result<ArrayImpl, ConvertError>;
 impl ArrayImpl {
     pub fn neg(&self) -> Result {
         Ok(match self {
+            A::Int16(a) => A::new_int16(unary_op(a.as_ref(), |v| -v)),
             A::Int32(a) => A::new_int32(unary_op(a.as_ref(), |v| -v)),
             A::Int64(a) => A::new_int64(unary_op(a.as_ref(), |v| -v)),
             A::Float64(a) => A::new_float64(unary_op(a.as_ref(), |v| -v)),
